@@ -12,9 +12,10 @@ import RwsDriver.Config
 import RwsDriver.Mime
 import RwsDriver.Json
 import RwsDriver.Query
+import RwsDriver.Multipart
 open RwsDriver
 
-def allOps : List (String × Op) := base64Ops ++ corsOps ++ rangeMOps ++ poolOps ++ requestOps ++ configOps ++ mimeOps ++ jsonOps ++ queryOps
+def allOps : List (String × Op) := base64Ops ++ corsOps ++ rangeMOps ++ poolOps ++ requestOps ++ configOps ++ mimeOps ++ jsonOps ++ queryOps ++ multipartOps
 
 def runLine (line : String) : String :=
   match (line.trimAscii.toString.splitOn " ").filter (· ≠ "") with
